@@ -37,4 +37,22 @@ if [ $# -gt 0 ]; then
   git -C /repo checkout -- .
   trap - EXIT
 fi
+python3 - "$dst" "$head" "$tests_ok" "$tests_bad" "$with" "$without" <<'PY'
+import json, sys, os, glob, re
+dst, head, tok, tbad, w, wo = sys.argv[1:7]
+mp = os.path.join(dst, "meta.json")
+try:
+    meta = json.load(open(mp))
+except Exception:
+    meta = {}
+checks = {}
+for f in glob.glob(os.path.join(dst, "check_*.log")):
+    txt = open(f, errors="replace").read()
+    checks[os.path.basename(f)[6:-4]] = {"violation_lines": len(re.findall(r"^VIOLATION", txt, re.M)), "first_signatures": re.findall(r"signature: (.*)", txt)[:3]}
+meta["confirmed_by_verifier"] = {
+    "repo_head": head, "how": "tools/seedtest.sh: patch applied in a scratch worktree of /repo HEAD; cargo build + cargo test --workspace --no-fail-fast --offline; demo run with and without the patch; then git -C /repo apply, ./check <ID> --tier quick, git -C /repo checkout -- .",
+    "test_suite_ok_result_lines": int(tok), "test_suite_failure_lines": int(tbad), "demo_exit_with_change": int(w), "demo_exit_without_change": int(wo),
+    "quick_checks_on_mutant_at_time_of_confirmation": checks}
+json.dump(meta, open(mp, "w"), indent=1)
+PY
 git -C /repo status --short | head -3
